@@ -269,6 +269,14 @@ func (e *Engine) NewHint(f solver.Hint, nbOutputs int, inputs ...frontend.Variab
 		e.res.TolerantHints++
 		res = tolerant(kind, in, nbOutputs)
 	}
+	if e.opt.LumpBits && kind == HintOther && (strings.HasSuffix(name, "bits.nBits") || strings.HasSuffix(name, "bits.NBits")) && len(res) > 0 {
+		// a malicious prover is not bound to gnark's decomposition hint either
+		for i := range res {
+			res[i] = new(big.Int)
+		}
+		res[0].Set(in[0])
+		e.res.LumpedBits++
+	}
 	if injected {
 		honest := res
 		res = sub.apply(e.q, kind, in, honest)
